@@ -219,3 +219,23 @@ _add(
          "the twin's logged per-synapse state taken d/dt steps earlier (zero before the start or the last clear).",
     technique="runtime monitoring: relational (2-safety) monitor, delayed connection vs. shifted log of an undelayed twin",
 )
+
+_add(
+    "C17",
+    rule="Serial (4 connection types, transform none / fixed / keyword-driven), Biclique (1-3 connections, 1-2 neuron "
+         "groups, per-connection and per-group transforms, combine sum/mean/prod/min/max/custom) and RecurrentSerial "
+         "(with/without trainable feedback and transforms) layers over the 8 neuron classes x 4 synapse types, with and "
+         "without connection delays, bias, batch 1-3, 6-10 step input sequences, capture_intermediate on/off; (a) every "
+         "step is compared with hand-stepped twins built from the same descriptor; (b) for EVERY position k of the run a "
+         "new layer is run k steps, cleared, compared state-by-state with a freshly built copy carrying its parameters and "
+         "adaptations, and both replay 5 steps. One evaluation = one compared step or one clear position; distinct = "
+         "(layer kind / combine, neuron, synapse, delay, capture, batch, clear position class) abstractions.",
+    required=["wiring_steps_checked", "clear_positions_checked", "replays_checked"],
+    floor={"quick": 150, "thorough": 500},
+    exhaustive={"quick": ["clear() at every position 0..T of each generated run"], "thorough": ["clear() at every position 0..T of each generated run"]},
+    text="Held on every topology and run explored: layer outputs (and captured intermediates) equal the documented "
+         "composition computed on independently constructed twins; clear() succeeds at every position of every run, "
+         "leaves parameters and adaptations untouched, and the cleared layer is state-identical to - and replays "
+         "identically to - a freshly built copy.",
+    technique="runtime monitoring: relational monitor, layer vs hand-composed twins and cleared layer vs fresh copy at every clear position",
+)
